@@ -951,12 +951,30 @@ void select_case(int kind, int n, int k, int icls, int vcls, Rng& r, Out& o) {
         if (m != msnap) o.fail("mask-modified:" + what, "the mask changed");
     } else {
         if (n == 0) k = 0;
-        switch (icls) {
+        switch (n == 0 ? 0 : icls) {
         case 0: k = 0; break;                                                       // empty list
         case 1: for (int i = 0; i < n; ++i) want.push_back(i); break;               // identity
         case 2: for (int i = n - 1; i >= 0; --i) want.push_back(i); break;          // reversed
         case 3: { int j = n ? r.range(0, n - 1) : 0; for (int i = 0; i < k; ++i) want.push_back(j); break; }   // one element repeated
         case 4: for (int i = 0; i < k; ++i) want.push_back(i % 2 ? n - 1 : 0); break;                          // the two ends
+        case 6: {   // a contiguous run lo..lo+len-1 in shuffled order
+            int len = std::max(1, std::min(n, k)), lo = r.range(0, n - len);
+            for (int i = 0; i < len; ++i) want.push_back(lo + i);
+            for (int i = len - 1; i > 0; --i) std::swap(want[size_t(i)], want[size_t(r.range(0, i))]);
+            break;
+        }
+        case 7: {   // first = minimum, last = maximum, length = span, interior permuted or repeated (looks like a run)
+            int len = std::max(1, std::min(n, k)), lo = r.range(0, n - len), hi = lo + len - 1;
+            want.push_back(lo);
+            for (int i = 1; i + 1 < len; ++i) want.push_back(r.range(lo, hi));
+            if (len >= 2) want.push_back(hi);
+            break;
+        }
+        case 8: {   // non-decreasing with repeats
+            for (int i = 0; i < k; ++i) want.push_back(r.range(0, n - 1));
+            std::sort(want.begin(), want.end());
+            break;
+        }
         default: for (int i = 0; i < k; ++i) want.push_back(r.range(0, n - 1));                                // random with repeats
         }
         if (icls == 0 || n == 0) want.clear();
@@ -1105,7 +1123,7 @@ static void sc_gen(Ctx& ctx) {
     for (int kind : {SK_MASK, SK_IDX_VEC, SK_IDX_ARR})
         for (int tl = 0; tl < 2; ++tl)
             for (int n = 0; n <= top; ++n)
-                for (int icls = 0; icls < 6; ++icls)
+                for (int icls = 0; icls < 9; ++icls)
                     for (int k : {1, 2, n, 2 * n + 3}) {
                         if (kind == SK_MASK && k != 1) continue;
                         if (kind != SK_MASK && icls < 3 && k != 1) continue;
@@ -1160,7 +1178,7 @@ static void sc_gen(Ctx& ctx) {
         } else if (kind == SK_ZEROPAD) {
             j.set("n", n).set("m", pick(0, 2) == 0 ? 0 : pick_log(0, 10000));
         } else {
-            j.set("n", n).set("m", pick_log(0, 2 * n + 3)).set("icls", pick(0, 5));
+            j.set("n", n).set("m", pick_log(0, 2 * n + 3)).set("icls", pick(0, 8));
         }
         return j.set("vcls", pick(0, V_NCLS - 1)).set("seed", (long long)seed64());
     });
